@@ -3,12 +3,32 @@
 From AB Require Import Prelude PySeq RepeatedLib Repeated Fields RepeatedProofs RepeatedLayout RepeatedInsert RepeatedCells RepeatedSep.
 From Coq Require Import ZifyBool Permutation.
 
+(* the cells after the window: the first keeps its tokens (only its gap, the separators directly
+   adjacent to the window, may differ), all later cells are literally the same *)
+Definition tail_eq (B B' : list cell) : Prop :=
+  match B, B' with
+  | [], [] => True
+  | b :: r, b' :: r' => c_body b' = c_body b /\ r' = r
+  | _, _ => False
+  end.
+
+Lemma tail_eq_refl : forall B, tail_eq B B.
+Proof. intros [|b r]; cbn; auto. Qed.
+
+Lemma tail_eq_bodies : forall B B', tail_eq B B' -> map c_body B' = map c_body B.
+Proof. intros [|b r] [|b' r'] H; cbn in *; try tauto. destruct H as [-> ->]. reflexivity. Qed.
+
+Lemma tail_eq_trans : forall B1 B2 B3, tail_eq B1 B2 -> tail_eq B2 B3 -> tail_eq B1 B3.
+Proof.
+  intros [|b1 r1] [|b2 r2] [|b3 r3] H1 H2; cbn in *; try tauto.
+  destruct H1 as [E1 ->], H2 as [E2 ->]. split; congruence.
+Qed.
+
 (* cs' is cs with the cells `removed` (contiguous) replaced by new cells whose bodies are `news`;
-   cells before are literally unchanged, cells after keep their bodies (only the gap of the first
-   may differ) *)
+   cells before are literally unchanged; of the cells after, only the gap of the first may differ *)
 Definition Edit (cs cs' removed : list cell) (news : list (list tok)) : Prop :=
   exists A B Nc B', cs = A ++ removed ++ B /\ cs' = A ++ Nc ++ B' /\
-                    map c_body Nc = news /\ map c_body B' = map c_body B.
+                    map c_body Nc = news /\ tail_eq B B'.
 
 Lemma cut_at : forall {A} (l : list A) p, 0 <= p <= zlen l -> exists a b, l = a ++ b /\ zlen a = p.
 Proof.
@@ -53,10 +73,10 @@ Proof. intros [|a A] [|m0 M] [|b0 B]; reflexivity. Qed.
 Lemma del_res_edit : forall A M B, Edit (A ++ M ++ B) (del_res A M B) M [].
 Proof.
   intros A M B. destruct A as [|a A].
-  - destruct M as [|m0 M']; [exists [], B, [], B; now repeat split|].
+  - destruct M as [|m0 M']; [exists [], B, [], B; repeat split; apply tail_eq_refl|].
     destruct B as [|b0 B']; [exists [], [], [], []; now repeat split|].
     exists [], (b0 :: B'), [], (mkcell (c_gap m0) (c_body b0) :: B'). now repeat split.
-  - destruct M; exists (a :: A), B, [], B; now repeat split.
+  - destruct M; exists (a :: A), B, [], B; repeat split; apply tail_eq_refl.
 Qed.
 
 Lemma del_res_wf : forall ph pre pht A M B post,
@@ -127,7 +147,7 @@ Hypothesis Hsepsb : seps_ok sepsb.
 Notation ins_res := (ins_res seps sepsb).
 
 Lemma ins_res_shape : forall A B fr vs,
-  exists Nc B', ins_res A B fr vs = A ++ Nc ++ B' /\ map c_body Nc = map d_store vs /\ map c_body B' = map c_body B.
+  exists Nc B', ins_res A B fr vs = A ++ Nc ++ B' /\ map c_body Nc = map d_store vs /\ tail_eq B B'.
 Proof.
   intros A B fr vs.
   assert (B1 : forall vs fr, map c_body (cells1 seps fr vs) = map d_store vs).
@@ -145,11 +165,9 @@ Proof.
           exists (mkcell g (d_store v) :: Nc), b'. cbn [shift]. rewrite E. repeat split; [|exact E2].
           cbn. now rewrite E1. }
       destruct (Hs vs (c_gap b0) fr) as (Nc & b' & E & E1 & E2).
-      exists Nc, (b' :: B'). rewrite E. repeat split.
-      * cbn [app]. now rewrite <- app_assoc.
-      * exact E1.
-      * cbn. now rewrite E2.
-  - exists (cells1 seps fr vs), B. repeat split. apply B1.
+      exists Nc, (b' :: B'). rewrite E. split; [cbn [app]; now rewrite <- app_assoc|]. split; [exact E1|].
+      cbn. split; [exact E2|reflexivity].
+  - exists (cells1 seps fr vs), B. split; [reflexivity|]. split; [apply B1|apply tail_eq_refl].
 Qed.
 
 Lemma ins_res_edit : forall A B fr vs, vs_ok vs ->
@@ -326,9 +344,14 @@ Proof.
 Qed.
 
 (* ---- xs[i] = v --------------------------------------------------------------------------------------- *)
+(* assigning the node that is already there changes nothing at all (and an index that does not exist is refused) *)
+Theorem setitem_int_same : forall s i v,
+  setitem_int s i true v = (s, [v], match list_get_int (s_items s) i with Ok _ => Ok tt | Err e => Err e end).
+Proof. intros s i v. unfold setitem_int. now destruct (list_get_int (s_items s) i). Qed.
+
 Theorem setitem_int_layout : forall pre pht cs post i v fr s' dl,
   WF ph pre pht cs post -> donors_ok fr (lay pre pht cs post) [v] ->
-  setitem_int (mkst (lay pre pht cs post) (map item_of cs)) i v = (s', dl, Ok tt) ->
+  setitem_int (mkst (lay pre pht cs post) (map item_of cs)) i false v = (s', dl, Ok tt) ->
   exists A c B, cs = A ++ c :: B /\ (zlen A = i \/ zlen A = i + zlen cs) /\ dl = [emptied v] /\
     let cs' := A ++ mkcell (c_gap c) (d_store v) :: B in
     s' = mkst (lay pre pht cs' post) (map item_of cs') /\ WF ph pre pht cs' post /\ Edit cs cs' [c] [d_store v].
@@ -375,7 +398,7 @@ Proof.
       * intros x Hx Hin. unfold ids in Hx. apply in_map_iff in Hx. destruct Hx as (t & <- & Ht).
         apply (Hdis t Ht). rewrite <- !ids_app in Hin. apply in_ids_cut. exact Hin.
     + apply Forall_app. split; [exact HokA|]. constructor; [split; assumption|exact (Forall_inv_tail Hok)].
-  - exists A, B, [mkcell (c_gap c) (d_store v)], B. now repeat split.
+  - exists A, B, [mkcell (c_gap c) (d_store v)], B. repeat split. apply tail_eq_refl.
 Qed.
 
 End Ops.
